@@ -887,6 +887,26 @@ def r02_4(ctx, repo):
             ctx.error(rule, '%s.%s: %s' % (cls, m, e))
             continue
         _bottom_top(ctx, rule, repo, cls, fn, val, what, N_TOP)
+    # names under every combination of the flags: no positional pairing of
+    # sequences that are laid out differently
+    fn = repo.method(cls, 'get_parameter_names')
+    for fl in [dict(exclude_bottom_level=a, include_ids=b)
+               for a in (False, True) for b in (False, True)]:
+        lf = _HierLifter(repo, cls, flags=dict(fl))
+        env = _hier_env()
+        env.update(fl)
+        site = '%s.get_parameter_names[%s]' % (cls, ', '.join(
+            '%s=%s' % kv for kv in sorted(fl.items())))
+        try:
+            lf.run(fn, env)
+        except Exception as e:
+            ctx.error(rule, '%s: %s' % (site, e))
+            continue
+        lf.events = [e for e in lf.events if e.kind == 'layout']
+        if not _emit_events(ctx, rule, repo, cls, fn, lf, site):
+            ctx.ok(rule, repo.loc(fn, cls, fn.name), site,
+                   'IDs and names are paired entry by entry over the same '
+                   'layout', engine=ENG)
     # the unique IDs are the individuals in the order of their blocks
     fn = repo.method(cls, 'get_id')
     lf = _HierLifter(repo, cls, flags={'unique': True})
